@@ -25,7 +25,7 @@ func init() {
 		}
 		seen[s] = k
 	}
-	c06Pool = []string{p1, p2, "{t}a", "{t}b", "", "a\r\nb", "\x00\xff", "k{t}"}
+	c06Pool = []string{p1, p2, "{t}a", "{t}b", "", "a\r\nb", "\x00\xff", "k{t}", "{}t"}
 }
 
 type c06req struct {
@@ -413,7 +413,7 @@ func c08Scenarios(tier string) []*world.Scenario {
 
 func init() {
 	register(&Check{ID: "C06", Level: "model_checking",
-		Rule:      "every MGET / DEL key list and MSET pair list of length 1..4 (thorough 1..5) with repetition over a pool of 8 keys chosen for slot structure (two brace-free keys sharing a slot, two sharing a slot through a hash tag, a third key of that tag's slot, empty key, key with CRLF, binary key), values {plain, empty, CRLF-bearing}; each list is sent through the real proxy (closed-loop batches of 60) and the fragments every node received are compared with the reference split: one well-formed fragment of the same command per distinct specification slot, only keys of that slot, every key occurrence (with its value) exactly once and in request order; non-trivial = every list (each list is distinct); distinct = observable outcomes of the batches",
+		Rule:      "every MGET / DEL key list and MSET pair list of length 1..4 (thorough 1..5) with repetition over a pool of 9 keys chosen for slot structure (two brace-free keys sharing a slot, two sharing a slot through a hash tag, a third key of that tag's slot, empty key, key with CRLF, binary key, key with an empty '{}' tag), values {plain, empty, CRLF-bearing}; each list is sent through the real proxy (closed-loop batches of 60) and the fragments every node received are compared with the reference split: one well-formed fragment of the same command per distinct specification slot, only keys of that slot, every key occurrence (with its value) exactly once and in request order; non-trivial = every list (each list is distinct); distinct = observable outcomes of the batches",
 		Scenarios: c06Scenarios, BudgetQuick: 100, BudgetThorough: 1500,
 		Assumptions: []string{"pool keys are brace-free or carry well-formed hash tags (slot function itself is C05's business)"}})
 	register(&Check{ID: "C08", Level: "model_checking",
